@@ -85,7 +85,7 @@ def run(chk: core.Check, tier: str, seed: int) -> None:
     rng = random.Random(seed)
     # ---- MC + GEN -----------------------------------------------------------------
     runs = [("SigmaFull", 3 if tier == "quick" else 4, None), ("SigmaEsc", 4 if tier == "quick" else 6, None),
-            ("SigmaHex", 13, 250 if tier == "quick" else 6000)]
+            ("SigmaHexQ", 13, 250 if tier == "quick" else 6000)]
     gen_states = {}
     for sigma, maxlen, sim in runs:
         cfg = (f"SPECIFICATION Spec\nCONSTANTS\n  Sigma <- {sigma}\n  MaxLen = {maxlen}\n  Quotes <- BothQuotes\n"
@@ -197,6 +197,15 @@ def run(chk: core.Check, tier: str, seed: int) -> None:
                      "\\/", "/", "\\ud83d", "\\ude00", "\\ud83d\\ud83d\\ude00", "x\\u0000y", "\\u0000", "\\u001F", "\\u007f", " ", "\\ ", "\\e",
                      "\\N", "\\B", "\\u+041", "\\u-041", "\\uD83D\\uDE00\\uD83D\\uDE00", "\\\\u0041", "\\\\\\u0041"]:
             lits.append(q + body + q)
+    from .. import corpus  # noqa: PLC0415
+    for body in corpus.LITERAL_BODIES:
+        for q in "'\"":
+            lits.append(q + body + q)
+    # every boundary high / low surrogate with every other boundary partner, both hex cases
+    for h in (0xD800, 0xDBFE, 0xDBFF):
+        for lo in (0xDC00, 0xDFFE, 0xDFFF):
+            for q in "'\"":
+                lits += [q + f"\\u{h:04x}\\u{lo:04X}" + q, q + "x" + f"\\u{h:04X}\\u{lo:04x}" + "y" + q]
     lits = list(dict.fromkeys(lits))
     for lit in lits:
         res, val = observe(jp, lit)
